@@ -874,6 +874,55 @@ func lxRecord(out string, n int) error {
 		}
 		judge("bare", s, func(x string) string { return x })
 	}
+	// "bad expressions fail cleanly": arbitrary short texts over the characters the syntax knows about
+	// and some it does not (non-ASCII white space, brackets, carets): both parsers must come back -
+	// no hang, no panic - and an error must be a syntax error positioned inside the text.  Nothing is
+	// said about WHAT they answer (that is the model's business on its alphabet).
+	soupAlpha := []string{"a", "b", ":", "/", "[", "]", "^", "(", ")", "\"", "\\", " ", "\u00a0", "\u3000", "\u0085", "\u2003", "@", ",", "-", "*",
+		"|", " OR ", " AND ", "é", "k:", "/[", "[^", ".unit", ".config", "@(", "\t"}
+	for i := 0; i < n; i++ {
+		var b strings.Builder
+		for j, m := 0, 1+r.Intn(7); j < m; j++ {
+			b.WriteString(soupAlpha[r.Intn(len(soupAlpha))])
+		}
+		s := b.String()
+		ev := lxEvent{Mode: "soup", Hex: hex.EncodeToString([]byte(s)), Str: strconv.Quote(s), OK: true, Exprs: 2}
+		bad := func(sig, msg string) {
+			if ev.OK {
+				ev.OK, ev.Signature, ev.Detail = false, sig, msg
+			}
+		}
+		fr, hang := lxNewFilter(s)
+		switch {
+		case hang:
+			bad("hang", fmt.Sprintf("NewFilter(%q) did not return within %v", s, lxTimeout))
+		case fr.panic != nil:
+			bad("panic", fmt.Sprintf("NewFilter(%q) panicked: %v", s, fr.panic))
+		case fr.err != nil:
+			if v, _ := lxCheckErr("NewFilter", fr.err, s); !v.OK {
+				bad(v.Signature, v.Detail)
+			}
+		}
+		if lxHangs == 0 {
+			pr, hang := lxParseProj(s)
+			switch {
+			case hang:
+				bad("hang", fmt.Sprintf("ProjectionParser.Parse(%q) did not return within %v", s, lxTimeout))
+			case pr.panic != nil:
+				bad("panic", fmt.Sprintf("ProjectionParser.Parse(%q) panicked: %v", s, pr.panic))
+			case pr.err != nil:
+				if v, _ := lxCheckErr("Parse", pr.err, s); !v.OK {
+					bad(v.Signature, v.Detail)
+				}
+			}
+		}
+		ew.emit(&ev)
+		if lxHangs > 0 {
+			ew.close()
+			fmt.Fprintf(os.Stderr, "lexer record: stopped after a call that never returned (%d events)\n", ew.n)
+			os.Exit(0)
+		}
+	}
 	if err := ew.close(); err != nil {
 		return err
 	}
